@@ -113,6 +113,31 @@ func (w *world) newLocal() {
 	out.Stat("localdbs", 1)
 }
 
+// newLocalRO opens the read-only mode (no memdb layers; Set panics).
+func (w *world) newLocalRO() {
+	w.l = dbm.NewLocalDB(w.base, true)
+	w.sOverlay = map[string][]byte{}
+	w.sTx = nil
+	w.discarded = nil
+	out.Op("newro", "ok")
+	out.Stat("localdbs_readonly", 1)
+}
+
+// setRO: Set on a read-only LocalDB panics (documented mode); nothing may change.
+func (w *world) setRO(k, v []byte) {
+	res := gen.Guard(func() string {
+		if err := w.l.Set(k, v); err != nil {
+			return "err:" + err.Error()
+		}
+		return "ok"
+	})
+	out.Op(fmt.Sprintf("set %s %s", hx(k), hx(v)), res)
+	out.Stat("set_on_readonly", 1)
+	if res != "panic" {
+		out.Pred("C08|LocalDB.Set(readOnly)|write-accepted-in-read-only-mode", fmt.Sprintf("k=%s res=%s", hx(k), res))
+	}
+}
+
 func (w *world) begin() {
 	if w.sTx != nil {
 		out.Stat("begin_inside_open_tx", 1)
@@ -485,7 +510,58 @@ func history(w *world, r *gen.Rand, variant int) {
 	out.Stat("histories", 1)
 }
 
+// roHistory: a read-only LocalDB answers from the base database only, whatever is called.
+func roHistory(w *world, r *gen.Rand, variant int) {
+	alphabet := [][]byte{{'a', 'b'}, {0x00, 'a', 0xff}}[variant%2]
+	var pool [][]byte
+	for i := 0; i < r.Range(3, 8); i++ {
+		pool = append(pool, r.BytesFrom(alphabet, r.Range(1, 3)))
+	}
+	w.newbase()
+	for _, k := range pool {
+		if r.Chance(3, 4) {
+			v := r.Bytes(r.Range(1, 2))
+			if r.Chance(1, 8) {
+				v = nil
+			}
+			w.baseSet(k, v)
+		}
+	}
+	w.newLocalRO()
+	key := func() []byte { return pool[r.Intn(len(pool))] }
+	for i := 0; i < 40; i++ {
+		switch r.Pick(3, 6, 6, 2, 2, 2, 3) {
+		case 0:
+			w.l.Begin()
+			out.Op("begin", "ok")
+		case 1:
+			w.get(key())
+		case 2:
+			var p, k []byte
+			if r.Bool() {
+				p = key()[:1]
+			}
+			if r.Bool() {
+				k = key()
+			}
+			w.list(p, k, int32(r.Range(0, 3)), int32(r.Intn(2))|[]int32{0, dbm.ListWithKey, dbm.ListKeyOnly}[r.Intn(3)], true)
+		case 3:
+			w.count(key()[:1])
+		case 4:
+			must(w.l.Commit())
+			out.Op("commit", "ok")
+		case 5:
+			w.l.Rollback()
+			out.Op("rollback", "ok")
+		case 6:
+			w.setRO(key(), r.Bytes(1))
+		}
+	}
+	out.Stat("histories_readonly", 1)
+}
+
 func replay(w *world, lines []string) {
+	ro := false
 	for _, l := range lines {
 		f := strings.Fields(l)
 		bad := func() { out.Op(l, "bad-op") }
@@ -503,6 +579,18 @@ func replay(w *world, lines []string) {
 			w.baseSet(k, v)
 		case len(f) == 1 && f[0] == "new" && w.base != nil:
 			w.newLocal()
+			ro = false
+		case len(f) == 1 && f[0] == "newro" && w.base != nil:
+			w.newLocalRO()
+			ro = true
+		case len(f) == 3 && f[0] == "set" && needL() && ro:
+			k, ok1 := unhx(f[1])
+			v, ok2 := unhx(f[2])
+			if !ok1 || !ok2 {
+				bad()
+				continue
+			}
+			w.setRO(k, v)
 		case len(f) == 1 && f[0] == "begin" && needL():
 			w.begin()
 		case len(f) == 1 && f[0] == "commit" && needL():
@@ -569,6 +657,9 @@ func main() {
 	n := gen.Scale(300, 5000)
 	for i := 0; i < n; i++ {
 		history(w, r, i)
+		if i%10 == 0 {
+			roHistory(w, r, i/10)
+		}
 	}
 	out.Sample(fmt.Sprintf("%d histories over a pre-populated GoLevelDB base", n))
 }
